@@ -352,3 +352,22 @@ def finish(ctx, level, signatures=None, extra_cov=None):
         ctx.prop, ctx.tier, "VIOLATION" if rc else "ok", cov["states"], cov["transitions"],
         cov["traces_validated_against_impl"], cov["evaluations"], time.time() - ctx.t0))
     return rc
+
+
+# ----------------------------------------------------------------------------------------------
+# trace validation (L3)
+
+def tlc_trace(ctx, module, cfg, trace_file, timeout=900, xmx="4g", deque=True):
+    """Run a Trace_* spec over a recorded NDJSON file (IOEnv.TRACE). Returns the TLC result with output lines."""
+    r = run_tlc(ctx, module, cfg, workers=1, timeout=timeout, env={"TRACE": trace_file}, xmx=xmx, xss="1g",
+                deque=deque, tag="trace")
+    if r.get("timeout"):
+        raise ToolError("TLC timeout validating %s" % trace_file)
+    if r["errors"] and not any("FURTHEST" in l or "MATCHED" in l for l in (r["out"] or [])):
+        sys.stdout.write("\n".join((r["out"] or [])[-30:]) + "\n")
+        raise ToolError("trace validation run failed: %s" % r["errors"][:2])
+    ctx.cov["tlc_runs"].append({"cfg": cfg, "generated": r["generated"], "distinct": r["distinct"],
+                                "wall_s": r["wall"], "role": "trace validation"})
+    ctx.cov["states"] += r["distinct"]
+    ctx.cov["transitions"] += r["generated"]
+    return r
